@@ -180,3 +180,20 @@ Example C16_ex_no_dangling_partial_hyps :
                     /\ m_addr m = P "Shelf.Slot" /\ t = P "Shelf.Tier".
 Proof. exact ex_no_dangling_partial_hyps. Qed.
 Print Assumptions C16_ex_no_dangling_partial_hyps.
+
+(* both branches of prune_file occur, a second service and a whole file vanish, and (unlike the
+   witness of C16_no_dangling_refuted) nothing dangles when enclosing messages are reachable *)
+Example C16_ex_prune :
+  prune_file ex_al (mkFile "google/example/library/v1/extra.proto" true [] [Msg (P "Orphan") [fld_s] [] []] [] []) = None /\
+  (match build ex_g wit_pkg (ex_l false) with
+   | Built out =>
+       map o_name out = ["google/dep/common.proto"; "google/example/library/v1/resources.proto"; "google/example/library/v1/library.proto"]
+       /\ option_map o_msgs (find_ofile out "google/example/library/v1/resources.proto")
+          = Some [P "Shelf.Slot"; P "Shelf.LabelsEntry"; P "Shelf"; P "Book"]
+       /\ option_map (fun o => map svc_view (o_svcs o)) (find_ofile out "google/example/library/v1/library.proto")
+          = Some [(P "Library", ["GetBook"; "Import"; "Start"]); (P "Ops", ["Get"])]
+       /\ dangling ex_g out = []
+   | _ => False
+   end).
+Proof. exact ex_prune. Qed.
+Print Assumptions C16_ex_prune.
